@@ -9,6 +9,7 @@ import (
 	"os"
 	"strings"
 
+	"bytes"
 	zed "github.com/brimdata/super"
 	"github.com/brimdata/super/compiler"
 	"github.com/brimdata/super/compiler/data"
@@ -16,9 +17,15 @@ import (
 	"github.com/brimdata/super/pkg/field"
 	"github.com/brimdata/super/runtime"
 	"github.com/brimdata/super/zbuf"
+	"github.com/brimdata/super/zio"
+	"github.com/brimdata/super/zio/zngio"
 	"github.com/brimdata/super/zio/zsonio"
 	"github.com/brimdata/super/zson"
 )
+
+type plain struct{ r zio.Reader }
+
+func (p *plain) Read() (*zed.Value, error) { return p.r.Read() }
 
 func main() {
 	noopt := flag.Bool("n", false, "no optimize")
@@ -26,6 +33,8 @@ func main() {
 	key := flag.String("k", "", "sort key")
 	desc := flag.Bool("desc", false, "desc")
 	batch := flag.Int("b", 0, "values per batch")
+	zngIn := flag.String("zng", "", "read input from this ZNG file")
+	dump := flag.Bool("dump", false, "dump input as ZSON and exit")
 	flag.Parse()
 	if *batch > 0 {
 		zbuf.PullerBatchValues = *batch
@@ -70,7 +79,20 @@ func main() {
 		b, _ := json.MarshalIndent(job.Entry(), "", " ")
 		fmt.Println(string(b))
 	}
-	r := zsonio.NewReader(zctx, strings.NewReader(input))
+	var r zio.Reader = zsonio.NewReader(zctx, strings.NewReader(input))
+	if *zngIn != "" {
+		b, _ := os.ReadFile(*zngIn)
+		r = &plain{zngio.NewReader(zctx, bytes.NewReader(b))}
+	}
+	if *dump {
+		for {
+			v, err := r.Read()
+			if v == nil || err != nil {
+				return
+			}
+			fmt.Println(zson.FormatValue(*v))
+		}
+	}
 	if err := job.Build(r); err != nil {
 		fmt.Println("BUILD ERROR:", err)
 		return
